@@ -155,7 +155,7 @@ func (b *Builder) CommitteeActor() Actor {
 
 // StandbyValidatorsActor is the BFT multisig of the standby validators (genesis funds holder).
 func (b *Builder) StandbyValidatorsActor() Actor {
-	_, vc := b.N.Chain.Sizes()
+	vc := b.N.Chain.StandbyValidators()
 	return Multisig(smartcontract.GetDefaultHonestNodeCount(vc), CommitteeKeys[:vc])
 }
 
@@ -168,7 +168,13 @@ func (b *Builder) ValidatorsActor() (Actor, error) {
 	return MultisigOfPubs(smartcontract.GetDefaultHonestNodeCount(len(vals)), vals)
 }
 
+// CandCommittee0 + j as a candidate index names CommitteeKeys[j] (the small indices reach members 0 and 1 only).
+const CandCommittee0 = 100
+
 func candPub(i int) *keys.PublicKey {
+	if i >= CandCommittee0 { // any member of the committee pool by its index (elections inside the standby committee)
+		return CommitteeKeys[(i-CandCommittee0)%NCommittee].Pub
+	}
 	i = ((i % (NCandidates + 2)) + NCandidates + 2) % (NCandidates + 2)
 	if i < NCandidates {
 		return Candidates[i].Pub
